@@ -213,6 +213,8 @@ PROPS["C06"] = {
     "units": [
         {"name": "C06", "pkg": "server", "test": "TestVerifC06",
          "quick": {"shards": 16, "checks": 150}, "thorough": {"shards": 16, "checks": 5000, "timeout": 3000}},
+        {"name": "C06c", "pkg": "server", "test": "TestVerifC06c",
+         "quick": {"shards": 8, "checks": 3, "timeout": 600}, "thorough": {"shards": 8, "checks": 25, "timeout": 3000}},
     ],
 }
 
